@@ -106,7 +106,7 @@ pg.perform = _perform
 
 def config_of(shard):
     flavour, nc, em, ff, dec = shard
-    return pg.Config(actions=cleanup_actions(nc), kinds=KINDS, expect_mismatch=em, force_failure=ff, decorator=dec)
+    return pg.Config(actions=cleanup_actions(nc), kinds=KINDS, expect_mismatch=em, force_failure=ff, decorator=dec, teardown_pre_kinds=(pg.KBI, pg.ERROR))
 
 
 def execute(config, flavour, chooser):
